@@ -73,6 +73,12 @@ def generate(rs: int, tier: str, index: int) -> dict:
         for e, col in zip(lit["exponents"], lit["coefficients"]):
             if sum(e):
                 col[:] = [(v and ctiny.choice([1e-9, -1e-12, 1e-30, 5e-324])) for v in col]
+    cbig = ch.sub("bigint")
+    if kindc == "int" and kind in ("lead", "proxy", "extreme", "queries", "const") and cbig.chance(0.15):
+        # integer coefficients beyond 2**53 that differ by one or two: distinct numbers, one float64
+        for col in lit["coefficients"]:
+            col[:] = [(v and (1 if v > 0 else -1) * (2 ** cbig.choice([53, 53, 60]) + cbig.below(4))) for v in col]
+        step["big_ints"] = True
     if ch.sub("npflags").chance(0.15):
         step["np_flags"] = True
     if ch.sub("results").chance(0.25):
